@@ -160,7 +160,7 @@ def okayP (c : Config) (t : Tok) (pid : Nat) (tg : Bool) : Bool := t.targets c &
 known so far) -/
 def RunInv (c : Config) (a : Acct) (r : Regs) (W com : List Nat) (acc : List Entry)
     (t : Tok) (pid : Nat) (sent : List Nat) (n : Nat) : Prop :=
-  t.wf = true ∧ n ≤ c.mps ∧ r.transferActive = a.open_ ∧ com.map dec = acc ∧
+  t.wf = true ∧ (t.targets c = true → n ≤ c.mps) ∧ r.transferActive = a.open_ ∧ com.map dec = acc ∧
   r.packetHasData = (okayP c t pid r.expectedToggle && !sent.isEmpty) ∧
   (r.overflow = true → okayP c t pid r.expectedToggle = true ∧ sent ≠ []) ∧
   (okayP c t pid r.expectedToggle = false → W = [] ∧ r.rxCnt = 0) ∧
@@ -176,7 +176,7 @@ def WInv (c : Config) (p : Phase) (a : Acct) (r : Regs) (W com : List Nat) (acc 
   | .finByte t pid sent now _ => RunInv c a r W com acc t pid sent (sent.length + now.toList.length) ∧
       (now = none → sent = [])
   | .finStrobe t pid bytes ok responded =>
-    t.wf = true ∧ bytes.length ≤ c.mps ∧ (responded = true → ok = true) ∧
+    t.wf = true ∧ (t.targets c = true → bytes.length ≤ c.mps) ∧ (responded = true → ok = true) ∧
     (if t.targets c then
       (bytes = [] → r.rxCnt = 0 ∧ r.overflow = false ∧ r.packetHasData = false) ∧
       (if responded then
@@ -244,6 +244,7 @@ theorem winv_step_tok {c : Config} {t : Tok} {s : WState} {o : BoundaryDetector.
   obtain ⟨hrr, h3⟩ := step_tok_inv hs
   simp only at htg hW hcnt hta hcom hovf hphd
   rcases h3 with ⟨hnew, hwf', _, rfl⟩ | ⟨hnew, _, _, _, hm, rfl⟩ | ⟨hnew, _, _, _, rfl⟩ | ⟨hnew, _, _, _, rfl⟩ <;>
+    (try replace hm := lenOk_inv hm) <;>
     simp [WState.Inv, WState.next, WInv, RunInv, okayP, regsNext, combG, wNext, wctl, Acct.step, Phase.answered, body,
       hn, hco, hio, hrr, hnew, hW, hcnt, hta, hcom, htg, hovf, hphd, hwf] <;>
     cases i.clearHalt <;> simp_all
@@ -283,20 +284,39 @@ theorem winv_step_rx {c : Config} {t : Tok} {pid : Nat} {sent : List Nat} {now :
   obtain ⟨htok, hpid, hnew, hclr⟩ := stable_inv hst
   simp only at htg hta hcom hphd hovf hno hok hlen
   rw [htg] at hphd hovf hno hok
-  cases now with
-  | none =>
-    simp only at hvn
-    rcases h3 with ⟨_, _, hm, rfl⟩ | ⟨_, _, _, rfl⟩ | ⟨_, _, _, rfl⟩ <;>
-      simp [WState.Inv, WState.next, WInv, RunInv, regsNext, combG_tok htok hpid, wNext, wctl, Acct.step, Phase.answered,
-        hvn, hco, hio, hrr, hnew, hta, hcom, htg, hwf, okayP_clr hclr] <;>
-      cases hK : okayP c t pid a.toggle <;> simp_all <;> omega
-  | some x =>
-    obtain ⟨hn, hvl, hpl, hfi, hla⟩ := hvn
-    rcases h3 with ⟨_, _, hm, rfl⟩ | ⟨_, _, _, rfl⟩ | ⟨_, _, _, rfl⟩ <;>
-      simp [WState.Inv, WState.next, WInv, RunInv, regsNext, combG_tok htok hpid, wNext, wctl, Acct.step, Phase.answered,
-        hn, hvl, hpl, hfi, hla, hco, hio, hrr, hnew, hta, hcom, htg, hwf, okayP_clr hclr] <;>
-      cases hK : okayP c t pid a.toggle <;> cases full <;> cases hO : r.overflow <;> simp_all <;>
-      exact ⟨by rw [body_snoc, Bool.and_comm], rxCnt_no_wrap _ _ (by omega)⟩
+  cases hT : t.targets c
+  · -- a transaction for somebody else: any length, nothing moves
+    have hK : okayP c t pid a.toggle = false := by simp [okayP, hT]
+    cases now with
+    | none =>
+      simp only at hvn
+      rcases h3 with ⟨_, _, hm, rfl⟩ | ⟨_, _, _, rfl⟩ | ⟨_, _, _, rfl⟩ <;>
+        simp [WState.Inv, WState.next, WInv, RunInv, regsNext, combG_tok htok hpid, wNext, wctl, Acct.step, Phase.answered,
+          hvn, hco, hio, hrr, hnew, hta, hcom, htg, hwf, okayP_clr hclr, hT] <;>
+        simp_all
+    | some x =>
+      obtain ⟨hn, hvl, hpl, hfi, hla⟩ := hvn
+      rcases h3 with ⟨_, _, hm, rfl⟩ | ⟨_, _, _, rfl⟩ | ⟨_, _, _, rfl⟩ <;>
+        simp [WState.Inv, WState.next, WInv, RunInv, regsNext, combG_tok htok hpid, wNext, wctl, Acct.step, Phase.answered,
+          hn, hvl, hpl, hfi, hla, hco, hio, hrr, hnew, hta, hcom, htg, hwf, okayP_clr hclr, hT] <;>
+        simp_all
+  · replace hlen := hlen hT
+    cases now with
+    | none =>
+      simp only at hvn
+      rcases h3 with ⟨_, _, hm, rfl⟩ | ⟨_, _, _, rfl⟩ | ⟨_, _, _, rfl⟩ <;>
+        (try replace hm := lenOk_inv hm hT) <;>
+        simp [WState.Inv, WState.next, WInv, RunInv, regsNext, combG_tok htok hpid, wNext, wctl, Acct.step, Phase.answered,
+          hvn, hco, hio, hrr, hnew, hta, hcom, htg, hwf, okayP_clr hclr, hT] <;>
+        cases hK : okayP c t pid a.toggle <;> simp_all <;> omega
+    | some x =>
+      obtain ⟨hn, hvl, hpl, hfi, hla⟩ := hvn
+      rcases h3 with ⟨_, _, hm, rfl⟩ | ⟨_, _, _, rfl⟩ | ⟨_, _, _, rfl⟩ <;>
+        (try replace hm := lenOk_inv hm hT) <;>
+        simp [WState.Inv, WState.next, WInv, RunInv, regsNext, combG_tok htok hpid, wNext, wctl, Acct.step, Phase.answered,
+          hn, hvl, hpl, hfi, hla, hco, hio, hrr, hnew, hta, hcom, htg, hwf, okayP_clr hclr, hT] <;>
+        cases hK : okayP c t pid a.toggle <;> cases full <;> cases hO : r.overflow <;> simp_all <;>
+        exact ⟨by rw [body_snoc, Bool.and_comm], rxCnt_no_wrap _ _ (by omega)⟩
 
 /-- the write of a packet's final byte completes its entries; `last` is set iff the packet is short -/
 theorem last_entry (f : Bool) (sent : List Nat) (x mps : Nat) (h : sent.length + 1 ≤ mps) :
